@@ -41,6 +41,40 @@ func specBechPolymod(values []int) int {
 	return chk
 }
 
+// bechWeight4 searches an error pattern of at most four symbol substitutions (positions counted over data ++ checksum,
+// n symbols) whose checksum syndrome equals target, by meet-in-the-middle over pairs of single-symbol errors. The
+// checksum is linear over GF(2), so the syndrome of a pattern is the xor of its single-symbol syndromes.
+func bechWeight4(n int, target int) [][2]int {
+	zero := make([]int, n)
+	base := specBechPolymod(zero)
+	type single struct{ pos, val, syn int }
+	singles := []single{}
+	for pos := 0; pos < n; pos++ {
+		for v := 1; v < 32; v++ {
+			w := make([]int, n)
+			w[pos] = v
+			singles = append(singles, single{pos, v, specBechPolymod(w) ^ base})
+		}
+	}
+	pairs := map[int][2]int{}
+	for i := range singles {
+		for j := i + 1; j < len(singles); j++ {
+			if singles[i].pos != singles[j].pos {
+				pairs[singles[i].syn^singles[j].syn] = [2]int{i, j}
+			}
+		}
+	}
+	for syn, ij := range pairs {
+		if kl, ok := pairs[syn^target]; ok {
+			a, b, c, d := singles[ij[0]], singles[ij[1]], singles[kl[0]], singles[kl[1]]
+			if a.pos != c.pos && a.pos != d.pos && b.pos != c.pos && b.pos != d.pos {
+				return [][2]int{{a.pos, a.val}, {b.pos, b.val}, {c.pos, c.val}, {d.pos, d.val}}
+			}
+		}
+	}
+	return nil
+}
+
 func specBechEncode(hrp string, data []byte) []byte {
 	vals := []int{}
 	for i := 0; i < len(hrp); i++ {
@@ -69,6 +103,34 @@ func genC03(r *Rng, tier string, emit func(Case)) {
 		n = 60000
 	}
 	prefixes := []string{"bitcoincash", "simpleledger", "bchtest", "slptest", "bchreg", "slpreg", "bchsim"}
+	// bech32: substitutions of at most four symbols whose syndrome is the difference between the BIP173 constant 1 and
+	// another plausible final constant (0, the bech32m constant 0x2bc830a3, all ones): a verifier that also accepts such
+	// a constant accepts exactly these strings
+	{
+		lens := []int{21, 27}
+		if tier == "thorough" {
+			lens = []int{12, 21, 27, 33, 40, 52}
+		}
+		for _, nsym := range lens {
+			for _, alt := range []int{0, 0x2bc830a3, 0x3fffffff} {
+				pat := bechWeight4(nsym, 1^alt)
+				if pat == nil {
+					continue
+				}
+				hrp := "bc"
+				data := r.Bytes(nsym - 6)
+				for j := range data {
+					data[j] &= 31
+				}
+				bs := specBechEncode(hrp, data)
+				bm := append([]byte{}, bs...)
+				for _, pv := range pat {
+					bm[pv[0]] ^= byte(pv[1])
+				}
+				e("bsub", "altconst", hs(hrp+"1"+symsToString(bs)), hs(hrp+"1"+symsToString(bm)))
+			}
+		}
+	}
 	for i := 0; i < n; i++ {
 		// ---- CashAddr
 		pre := prefixes[r.Intn(len(prefixes))]
@@ -108,6 +170,33 @@ func genC03(r *Rng, tier string, emit func(Case)) {
 			}
 			b[k] = []byte("bio1:Q -!~")[r.Intn(10)]
 			e("csub", "foreign", hs(valid), hx(b))
+		}
+		// case changes in the payload: 1..5 letters upper-cased, the last character always among them (mixed case is
+		// rejected whatever the position); and a multi-byte rune that Unicode folds to an ASCII letter
+		{
+			b := []byte(valid)
+			lp := []int{}
+			for j := len(pre) + 1; j < len(b); j++ {
+				if b[j] >= 'a' && b[j] <= 'z' {
+					lp = append(lp, j)
+				}
+			}
+			if len(lp) > 0 {
+				nc := r.Intn(5)
+				b[lp[len(lp)-1]] -= 32 // the last letter of the string
+				for _, j := range r.Perm(len(lp) - 1) {
+					if nc == 0 {
+						break
+					}
+					b[lp[j]] -= 32
+					nc--
+				}
+				e("csub", "case", hs(valid), hx(b))
+			}
+			if r.Intn(3) == 0 {
+				e("csub", "utf8", hs(valid), hs(utf8Variant(r, valid)))
+				e("csub", "utf8", hs(valid), hs(utf8Variant(r, strings.ToUpper(valid))))
+			}
 		}
 		// chosen syndrome: xor a pattern into the 8 checksum symbols
 		cs := append([]byte{}, syms...)
@@ -178,6 +267,10 @@ func genC03(r *Rng, tier string, emit func(Case)) {
 				fb[dpos[j]] = []byte("bio!B~2#")[r.Intn(7)]
 			}
 			e("bsub", "foreign", hs(bvalid), hx(fb))
+			if r.Intn(3) == 0 {
+				e("bsub", "utf8", hs(bvalid), hs(utf8Variant(r, bvalid)))
+				e("bsub", "utf8", hs(bvalid), hs(utf8Variant(r, strings.ToUpper(bvalid))))
+			}
 			// case changes: 1..4 letters of the data part upper-cased (a mixed-case string must be rejected)
 			cb := []byte(bvalid)
 			lpos := []int{}
